@@ -40,6 +40,8 @@ PROBLEM_RE = re.compile(r"^(.*?):(\d+|\?\?\?): (.*)$")
 def token(fmt: str, prob: str) -> str:
     if prob == "xref":
         return "L{nosuch.name}" if fmt == "epytext" else "`nosuch.name`"
+    if prob == "ambig":
+        return "L{twin}" if fmt == "epytext" else "`twin`"
     if prob == "markup":
         return "B{unclosed" if fmt == "epytext" else "*unclosed"
     return ""
@@ -167,7 +169,7 @@ def render(L: Dict[str, Any]) -> Tuple[str, Dict[str, int]]:
     if L.get("typed"):
         out += ["class T:", '    """The type."""']         # below the object: moves nothing
     # where the planted token / field actually is in the rendered file
-    needle = {"xref": "nosuch.name", "markup": "unclosed", "unkfield": "unknownfield", "param": "nosuch", "tfield": "nosuch.name", "vfield": "nosuch.name", "consbad": ":Parameters:"}[L["prob"]]
+    needle = {"xref": "nosuch.name", "markup": "unclosed", "unkfield": "unknownfield", "param": "nosuch", "tfield": "nosuch.name", "vfield": "nosuch.name", "consbad": ":Parameters:", "ambig": "twin"}[L["prob"]]
     at = [i + 1 for i, s in enumerate(out) if needle in s]
     return "\n".join(out) + "\n", {"quote": quote, "text0": text0, "close": close, "at": at[0] if len(at) == 1 else -1,
                                    "doclen": len(lines)}
@@ -281,8 +283,8 @@ def run_pydoctor(root: str, target: str, args: List[str], expr_fault: bool = Fal
 
 
 def job_has_history(root: str) -> bool:
-    """Every third batch is also run through the other history."""
-    return int(root.rsplit("_", 1)[1]) % 3 == 0
+    """Every fourth batch is also run through the other history."""
+    return int(root.rsplit("_", 1)[1]) % 4 == 0
 
 
 def render_only(pkg: str, fmt: str) -> Dict[str, List[int]]:
@@ -313,6 +315,8 @@ def _lines_batch(job: Tuple[str, str, List[Dict[str, Any]]]) -> Dict[str, Any]:
     pkg = os.path.join(root, "pkg")
     os.makedirs(pkg, exist_ok=True)
     Path(pkg, "__init__.py").write_text('"""Pkg."""\n')
+    for helper in ("zz_a.py", "zz_b.py"):        # two modules defining the same name: what an "ambiguous ref" needs
+        Path(pkg, helper).write_text('"""Helper module."""\n\ndef twin():\n    """Twin."""\n')
     names = {}
     for i, rec in enumerate(recs):
         src, meas = render(rec["lay"])
